@@ -354,6 +354,12 @@ pub fn c08(case: &Case, obs: &mut Obs, prec: Prec) -> Result<(), Failure> {
 // ---------------------------------------------------------------------------------------------
 // C09
 
+/// rectangle with corners snapped to the precision of the run (so that harness-made parts are representable)
+fn rect_poly_p(prec: Prec, x0: f64, y0: f64, x1: f64, y1: f64) -> Polygon<f64> {
+    let s = |v: f64| if prec == Prec::F32 { (v as f32) as f64 } else { v };
+    rect_poly(s(x0), s(y0), s(x1), s(y1))
+}
+
 fn rect_poly(x0: f64, y0: f64, x1: f64, y1: f64) -> Polygon<f64> {
     Polygon::new(LineString(vec![pt(x0, y0), pt(x1, y0), pt(x1, y1), pt(x0, y1), pt(x0, y0)]), vec![])
 }
@@ -379,10 +385,10 @@ pub fn c09(case: &Case, obs: &mut Obs, prec: Prec) -> Result<(), Failure> {
     let dir = (case.bits >> 3) % 4;
     let on_a = (case.bits >> 5) & 1 == 1;
     let part = match dir {
-        0 => rect_poly(cx - far - unit, cy, cx - far, cy + unit),
-        1 => rect_poly(cx + far, cy, cx + far + unit, cy + unit),
-        2 => rect_poly(cx, cy + far, cx + unit, cy + far + unit),
-        _ => rect_poly(cx, cy - far - unit, cx + unit, cy - far),
+        0 => rect_poly_p(prec, cx - far - unit, cy, cx - far, cy + unit),
+        1 => rect_poly_p(prec, cx + far, cy, cx + far + unit, cy + unit),
+        2 => rect_poly_p(prec, cx, cy + far, cx + unit, cy + far + unit),
+        _ => rect_poly_p(prec, cx, cy - far - unit, cx + unit, cy - far),
     };
     obs.class(match dir {
         0 => "far-left",
@@ -430,8 +436,8 @@ pub fn c09(case: &Case, obs: &mut Obs, prec: Prec) -> Result<(), Failure> {
     }
     // far parts on the right of both operands: the sweep of intersection / difference cannot stop early before them
     {
-        let pa = rect_poly(cx + far, cy + 2.0 * unit, cx + far + unit, cy + 3.0 * unit);
-        let pb = rect_poly(cx + far, cy - 3.0 * unit, cx + far + unit, cy - 2.0 * unit);
+        let pa = rect_poly_p(prec, cx + far, cy + 2.0 * unit, cx + far + unit, cy + 3.0 * unit);
+        let pb = rect_poly_p(prec, cx + far, cy - 3.0 * unit, cx + far + unit, cy - 2.0 * unit);
         let a3 = concat(a, &MultiPolygon(vec![pa.clone()]));
         let b3 = concat(b, &MultiPolygon(vec![pb.clone()]));
         for (i, &op) in OPS.iter().enumerate() {
@@ -466,7 +472,7 @@ pub fn c09(case: &Case, obs: &mut Obs, prec: Prec) -> Result<(), Failure> {
         let exact_shift = map_mp(&bs, &|p| pt(p.x - shift, p.y)) == *b;
         if exact_shift && boxes_disjoint(&ea, &mp_edges(&bs)) && (prec == Prec::F64 || f32_representable(&bs)) {
             obs.class("shortcut-vs-sweep");
-            let tall = rect_poly(cx + 2.0 * shift, all.1 - far, cx + 2.0 * shift + unit, all.3 + far);
+            let tall = rect_poly_p(prec, cx + 2.0 * shift, all.1 - far, cx + 2.0 * shift + unit, all.3 + far);
             let a4 = concat(a, &MultiPolygon(vec![tall.clone()]));
             for &op in OPS.iter() {
                 let triv = run(prec, a, &bs, op)?;
